@@ -8,6 +8,7 @@ import (
 	"verifharness/fw"
 
 	streamsql "github.com/rulego/streamsql"
+	"github.com/rulego/streamsql/logger"
 	"github.com/rulego/streamsql/verifrt/sched"
 	vtime "github.com/rulego/streamsql/verifrt/time"
 )
@@ -257,5 +258,80 @@ func c04PanickingRow() fw.Result {
 		}
 	})
 	a.sample(map[string]any{"sql": csql, "panicking_value": -1})
+	return a.result()
+}
+
+// c16SamePrint: an upsert replaces the table row even when the new row prints like the old one (7 / "7" / 7.0,
+// true / "true", a text that spells two columns). After UpsertTable has returned, EmitSync joins the new row: the
+// value and its Go type are compared. All ordered triples (register, upsert, upsert) over each family.
+func c16SamePrint() fw.Result {
+	a := newAcc("C16", "join-upsert-same-printed-form")
+	sql := "SELECT id, m.zone AS zone, m.note AS note, m.owner AS owner FROM stream s JOIN meta m ON s.dev = m.dev"
+	fams := [][]Row{
+		{{"zone": 7}, {"zone": "7"}, {"zone": 7.0}, {"zone": int64(7)}},
+		{{"zone": true}, {"zone": "true"}},
+		{{"zone": nil}, {"zone": "<nil>"}, {}},
+		{{"note": "hall owner:bob"}, {"note": "hall", "owner": "bob"}},
+		{{"zone": []any{1, 2}}, {"zone": "[1 2]"}},
+	}
+	typed := func(v any) string { return fmt.Sprintf("%T:%v", v, v) }
+	show := func(r Row) string {
+		return fmt.Sprintf("zone=%s note=%s owner=%s", typed(r["zone"]), typed(r["note"]), typed(r["owner"]))
+	}
+	for _, fam := range fams {
+		sequences(3, len(fam), func(ix []int) {
+			seq := append([]int(nil), ix...)
+			mk := func(x int) Row {
+				r := Row{"dev": 1}
+				for k, v := range fam[x] {
+					r[k] = copyVal(v)
+				}
+				return r
+			}
+			var got, want []string
+			var execErr string
+			res := sched.Run(sched.Config{MaxSteps: 5000000}, func() {
+				s := streamsql.New(streamsql.WithLogger(logger.NewDiscardLogger()))
+				if err := s.Execute(sql); err != nil {
+					execErr = err.Error()
+					return
+				}
+				if _, err := s.RegisterTable("meta", []map[string]any{mk(seq[0])}); err != nil {
+					execErr = err.Error()
+					return
+				}
+				for i, x := range seq {
+					if i > 0 {
+						if err := s.UpsertTable("meta", mk(x)); err != nil {
+							execErr = err.Error()
+							return
+						}
+					}
+					r, err := s.EmitSync(Row{"id": i + 1, "dev": 1})
+					if err != nil || r == nil {
+						got = append(got, fmt.Sprintf("no result (%v)", err))
+					} else {
+						got = append(got, show(r))
+					}
+					want = append(want, show(mk(x)))
+				}
+				s.Stop()
+			})
+			a.r.Evaluations++
+			a.r.States++
+			a.r.Nontrivial++
+			a.r.Transitions += int64(res.Steps)
+			cs := map[string]any{"sql": sql, "table_rows_in_turn": []string{js(mk(seq[0])), js(mk(seq[1])), js(mk(seq[2]))}}
+			if execErr != "" || res.Status != sched.StatusOK {
+				a.fail("C16|same-print|exec", execErr+" "+res.Status.String(), cs, nil, nil)
+				return
+			}
+			a.outcome(strings.Join(got, ";"))
+			if strings.Join(got, ";") != strings.Join(want, ";") {
+				a.fail("C16|same-print|stale-row-after-upsert", fmt.Sprintf("table row for dev 1 set to %v in turn: EmitSync joined %q, the rows in force were %q", cs["table_rows_in_turn"], got, want), cs, want, got)
+			}
+		})
+	}
+	a.sample(map[string]any{"sql": sql, "families": len(fams)})
 	return a.result()
 }
